@@ -1022,6 +1022,14 @@ def normalise_namedtuple_classes(trees):
             if not (isinstance(cls, ast.ClassDef) and len(cls.bases) == 1 and ast.unparse(cls.bases[0]).split('.')[-1] == 'NamedTuple' and not cls.decorator_list and not cls.keywords):
                 continue
             body = [b for b in cls.body if not (isinstance(b, ast.Expr) and isinstance(b.value, ast.Constant))]
+            if body and any(isinstance(b, ast.AnnAssign) for b in body) and all(isinstance(b, (ast.AnnAssign, ast.FunctionDef)) for b in body) \
+                    and not all(isinstance(b, ast.AnnAssign) and b.value is None for b in body) \
+                    and not any(isinstance(b, ast.FunctionDef) and b.name in ('__new__', '__init__', '__getitem__', '__iter__', '__len__') for b in body):
+                # fields with defaults and / or methods: a record class; handled like a dataclass (generated __init__ storing the
+                # fields; the tuple protocol - indexing, unpacking - is not modelled and leaves the fragment where it is used)
+                cls.bases = []
+                cls.decorator_list = [ast.Name(id='dataclass', ctx=ast.Load())]
+                continue
             if not body or not all(isinstance(b, ast.AnnAssign) and isinstance(b.target, ast.Name) and b.value is None for b in body):
                 continue
             new = ast.Assign(targets=[ast.Name(id=cls.name, ctx=ast.Store())],
@@ -1254,10 +1262,10 @@ class Repo:
                 self.modname[rel] = rel[:-3].replace(os.sep, '.')
         try:
             normalise_module_qualified_names(self.trees)
+            normalise_namedtuple_classes(self.trees)
             synthesise_dataclass_init(self.trees)
             from .spec import ATTR_ORDER
             self.renamed_attributes = canonical_attribute_names(self.trees, ATTR_ORDER)
-            normalise_namedtuple_classes(self.trees)
             self.unsupported_properties = normalise_properties(self.trees)
             inline_predicate_methods(self.trees)
             normalise_optional_attributes(self.trees)
